@@ -403,6 +403,8 @@ func runC15(c *Ctx, r *Report) {
 	iterReach := c.CG.Reach([]*Fn{p.Func("", "IPFSLog", "Iterator")}, false)
 	accumulatorsKept(c, r, "R-C15.10", func(fn *Fn) bool { _, ok := iterReach[fn.Root()]; return ok && inPkgs(p, fn, "", "entry") }, 2, "the entries below the earlier bounds are never emitted")
 	importRules(c, r, "C03", []string{"R-C03.2", "R-C03.3"}, "R-C15.7")
+	r.Doc("R-C15.14", "'newest first' rests on every appended entry carrying a time above its heads (adopted from C04)")
+	importRules(c, r, "C04", []string{"R-C04.2"}, "R-C15.14")
 	r.Doc("R-C15.8", "the loops that build the start set from the upper bounds process every bound")
 	loopsComplete(c, r, "R-C15.8", func(fn *Fn) bool { return rootNamed(fn, "Iterator") }, "upper bounds after the point where the loop stops are ignored: their causal past is not emitted")
 	r.Doc("R-C15.9", "the number of entries the traversal may take is either unlimited (−1, trimmed afterwards) or the requested amount itself — never a larger computed value")
